@@ -553,6 +553,16 @@ func checkC08(c *Case, st *Stats) *Violation {
 		}
 		lvl := allLevels[r.Intn(len(allLevels))]
 		std := r.Bool()
+		// member whose payload fills the decoder's 64 KiB output window exactly (65536 + k*32768 bytes), then a sync
+		// flush, then a tiny final block of 1-2 literals: the end-of-block code shares a packed table entry with the
+		// last literal exactly when the window is full, with the next member's bytes already in the input
+		tinyTail := 0
+		if r.Intn(5) == 0 {
+			tinyTail = 1 + r.Intn(2)
+			data = Payload(r, r.Pick2("text", "random", "alpha"), 65536+32768*r.Intn(3)+tinyTail)
+			std = false
+			lvl = r.Pick([]int{1, 2, -1, -2})
+		}
 		var w anyWriter
 		if std {
 			zw, _ := sgzip.NewWriterLevel(&file, lvl)
@@ -568,7 +578,14 @@ func checkC08(c *Case, st *Stats) *Violation {
 		if len(data) == 0 {
 			desc += "0"
 		}
-		w.Write(data)
+		if tinyTail > 0 {
+			desc += "t"
+			w.Write(data[:len(data)-tinyTail])
+			w.Flush()
+			w.Write(data[len(data)-tinyTail:])
+		} else {
+			w.Write(data)
+		}
 		if err := w.Close(); err != nil {
 			c.Trivial = true
 			return nil
